@@ -135,6 +135,7 @@ type Exec struct {
 	monitorShared  bool
 	inInit         bool
 	concreteInputs bool
+	recording     *recorder // non-nil: shared-memory accesses become schedule events (C14)
 	concrete       Model // non-nil: concrete differential run, nondets read from here
 
 	instrs       int64
